@@ -29,7 +29,15 @@ pub fn get_draw_function(decoration_style: DecorationStyle) -> (r: (DrawFn, bool
 { unimplemented!() }
 
 impl AmbiguousDiffMinusCounter {
+    /// what `three_dashes_expected` answers (U30 has the function itself under contract)
+    pub uninterp spec fn tde(&self) -> bool;
     //@ stub src/handlers/hunk_header.rs AmbiguousDiffMinusCounter::three_dashes_expected
+    //@| ensures r == self.tde(),
+}
+/// the line is taken for the `---` / `rename from` / `copy from` line of a file header
+pub open spec fn hdr_minus_test(sm: &StateMachine) -> bool {
+    (sm.state is DiffHeader || sm.source == Source::DiffUnified)
+    && ((is_prefix("--- "@, sm.line@) && sm.minus_line_counter.tde()) || is_prefix("rename from "@, sm.line@) || is_prefix("copy from "@, sm.line@))
 }
 impl<'p> Painter<'p> {
     //@ stub src/paint.rs Painter::emit spec=paint.emit
@@ -68,6 +76,7 @@ impl<'a> StateMachine<'a> {
     //@ fn src/handlers/diff_header.rs StateMachine::handle_diff_header_plus_line spec=diff_header.handle_plus
     //@ fn src/handlers/diff_header.rs StateMachine::test_diff_header_minus_line
     //@| ensures r ==> (self.state is DiffHeader || self.source == Source::DiffUnified),  // @C01,C04,C14:a.minus.header.is.looked.for.only.in.a.diff.header.or.plain.diff.output
+    //@|         r == hdr_minus_test(self),
     //@ fn src/handlers/diff_header.rs StateMachine::handle_diff_header_minus_line spec=diff_header.handle_minus
     //@ fn src/handlers/diff_header.rs StateMachine::test_diff_header_file_operation_line
     //@| ensures r ==> (self.state is DiffHeader || self.source == Source::DiffUnified),  // @C04,C14:rename.and.copy.lines.are.looked.for.only.in.a.diff.header
@@ -77,6 +86,7 @@ impl<'a> StateMachine<'a> {
     //@ fn src/handlers/diff_header_diff.rs StateMachine::handle_diff_header_diff_line spec=diff_header.handle_diff_line
     //@before <<<self.handle_pending_line_with_diff_name()?;>>>| assert(/* @C10,C14:hdl.pending.header.is.written.with.the.previous.sections.data */ self.diff_line == old(self).diff_line && self.minus_file == old(self).minus_file && self.plus_file == old(self).plus_file && self.mode_info == old(self).mode_info && self.current_file_pair == old(self).current_file_pair && self.handled_diff_header_header_line_file_pair == old(self).handled_diff_header_header_line_file_pair);
     //@ fn src/handlers/mod.rs StateMachine::handle_additional_cases spec=diff_header.handle_additional_cases
+    //@before <<<self.state = to_state;>>>| assert(/* @C10,C14:the.mode.information.of.the.section.before.has.gone.into.that.sections.own.header.before.the.header.of.this.line.is.written */ (old(self).state is DiffHeader || old(self).source == Source::DiffUnified) && !(self.config.file_style.is_omitted && !self.config.color_only) ==> self.mode_info@.len() == 0);
 }
 
 } // verus!
